@@ -7,6 +7,7 @@ import (
 	"encoding/json"
 	"fmt"
 	"math"
+	"os"
 	"path/filepath"
 	"sort"
 	"strconv"
@@ -199,6 +200,20 @@ type Query struct {
 	// equality on the wildcard column with this string value (ES term / query_string on `*`): the query whose search is
 	// restricted to the candidate columns recorded by the bloom check; compared with TextPlan.v inside Coq
 	AnyEq string
+	// time-bounded query: asked with startEpoch = TR[0], endEpoch = TR[1] (Text carries the "tr:" prefix the worker
+	// understands); the specification keeps the events whose timestamp is inside the range
+	HasTR bool
+	TR    [2]uint64
+}
+
+func evTs(e Event) uint64 { return tsBase + uint64(e.Id)*1000 }
+
+// does the event satisfy the query (predicate and, for a time-bounded query, the time range)
+func (q Query) accepts(e Event) bool {
+	if q.HasTR && (evTs(e) < q.TR[0] || evTs(e) > q.TR[1]) {
+		return false
+	}
+	return q.P.match(e)
 }
 
 func statVal(fn string, evs []Event) (string, bool) {
@@ -258,7 +273,7 @@ func statVal(fn string, evs []Event) (string, bool) {
 func (q Query) oracle(evs []Event) Obs {
 	var m []Event
 	for _, e := range evs {
-		if q.P.match(e) {
+		if q.accepts(e) {
 			m = append(m, e)
 		}
 	}
@@ -303,6 +318,9 @@ func obsKey(o Obs) string {
 	}
 	if (o.Stats && len(o.Groups) == 0) || (!o.Stats && len(o.Ids) == 0 && !o.Dup && (o.Total == nil || *o.Total == 0)) {
 		return "EMPTY" // an aggregation over no matching event comes back without measure rows
+	}
+	if o.Stats && len(o.Groups) == 1 && (o.Groups[0] == "* => count(*)=0" || strings.HasPrefix(o.Groups[0], "* => count(*)=0 ")) {
+		return "EMPTY" // … or, when blocks were searched and nothing matched, with one row counting zero events
 	}
 	if o.Stats {
 		return "G:" + strings.Join(o.Groups, " ; ")
@@ -383,6 +401,8 @@ type Stream struct {
 	Batching bool
 	WideOf   map[string]string
 	RefName  string
+	// time-bounded stream (timeprune.go): queries with HasTR are compared with TimePrune.v inside Coq
+	TimeBounded bool
 }
 
 type streamResult struct {
@@ -512,18 +532,20 @@ func e2eComparable(evs []Event, q Query, l LayoutCfg) bool {
 }
 
 type evalCtx struct {
-	sum   *vhlib.Summary
-	win   []string
-	pflag []string
-	bidx  []string
-	e2e   []string
-	fetch []string
-	acol  []string       // one item per (stream, layout): the layout and all its (value, observed ids)
-	acolN []int          // number of (value, observed ids) pairs per item of acol
-	acolL map[string]int // stream/layout -> index into acol
-	mu    sync.Mutex
-	cfg   vhlib.Config
-	nfail map[string]int
+	sum            *vhlib.Summary
+	win            []string
+	pflag          []string
+	bidx           []string
+	e2e            []string
+	fetch          []string
+	tfetch         []string
+	timeoutRetries int
+	acol           []string       // one item per (stream, layout): the layout and all its (value, observed ids)
+	acolN          []int          // number of (value, observed ids) pairs per item of acol
+	acolL          map[string]int // stream/layout -> index into acol
+	mu             sync.Mutex
+	cfg            vhlib.Config
+	nfail          map[string]int
 }
 
 func (c *evalCtx) evaluate(st Stream, res streamResult) {
@@ -560,6 +582,10 @@ func (c *evalCtx) evaluate(st Stream, res streamResult) {
 		}
 		for qi, q := range st.Queries {
 			got := out.Obs[qi]
+			if got.Err == skippedAfterTimeout {
+				c.sum.Count("e2e/not_run_after_a_timeout")
+				continue
+			}
 			stream := "main"
 			if st.Known != "" {
 				stream = "known:" + st.Known
@@ -595,7 +621,11 @@ func (c *evalCtx) evaluate(st Stream, res streamResult) {
 				c.e2e = append(c.e2e, fmt.Sprintf("(%s, %d%%N, %s, %s)", vhlib.CoqList(bs), q.ROp, cbytes(q.RLit), idl))
 			}
 			if st.Batching && l.KeepOrder && q.Stats == nil && got.Err == "" {
-				c.fetchCase(st, l, q, out, got)
+				if q.HasTR {
+					c.tfetchCase(st, l, q, out, got)
+				} else {
+					c.fetchCase(st, l, q, out, got)
+				}
 			}
 			if q.AnyEq != "" && !l.PQS && got.Err == "" && !got.Dup {
 				c.allcolCase(st, l, q, got)
@@ -613,7 +643,13 @@ func (c *evalCtx) evaluate(st Stream, res streamResult) {
 			if class == "" {
 				// false-alarm hygiene: a disagreement seen while ten worker processes share the machine is
 				// re-run alone (same layout, fresh directory) before it is believed
+				if _, done := retried[li]; !done && got.Err == "timeout" && c.timeoutRetries >= 2 {
+					retried[li] = nil // a hang costs a full timeout per re-run: only the first two are re-run alone
+				}
 				if _, done := retried[li]; !done {
+					if got.Err == "timeout" {
+						c.timeoutRetries++
+					}
 					docs := make([]string, len(st.Events))
 					for i, e := range st.Events {
 						docs[i] = e.doc()
@@ -635,7 +671,18 @@ func (c *evalCtx) evaluate(st Stream, res streamResult) {
 				} else if ro != nil {
 					got = ro.Obs[qi]
 				}
-				class = c.classifyBatching(st, l, out, got, want[qi], res, qi)
+				if got.Err == skippedAfterTimeout {
+					continue
+				}
+				if got.Err == "timeout" {
+					class = "query_hangs_in_layout"
+				}
+				if class == "" && q.HasTR {
+					class = classifyTimeBounded(st, l, q, got, want[qi], res, qi)
+				}
+				if class == "" {
+					class = c.classifyBatching(st, l, out, got, want[qi], res, qi)
+				}
 				dim := layoutDim(l)
 				baseOK := base >= 0 && res.errs[base] == nil && obsKey(res.outs[base].Obs[qi]) == obsKey(want[qi])
 				acClass, _ := allcolClass(st, l, q, got, want[qi])
@@ -684,6 +731,9 @@ func (c *evalCtx) evaluate(st Stream, res streamResult) {
 				if _, note := allcolClass(st, l, q, got, want[qi]); note != "" {
 					detail += "; " + note
 				}
+			}
+			if q.HasTR {
+				detail += "; " + timeBoundedNote(st, l, q, got, want[qi])
 			}
 			if st.Batching {
 				detail += fmt.Sprintf("; blocks in ingest order (event id = rank of its timestamp) %s, GOMAXPROCS=%d = blocks taken per fetch", blocksText(l, len(st.Events)), out.GoMaxProcs)
@@ -1835,7 +1885,26 @@ func runMeta(cfg vhlib.Config, sum *vhlib.Summary, rng *vhlib.Rng) {
 	for i := 0; i < nac; i++ {
 		streams = append(streams, allColStream(arng.Fork(), i, cfg.Thorough()))
 	}
+	ntb := 2
+	if cfg.Thorough() {
+		ntb = 10
+	}
+	trng := rng.Fork() // forked after every earlier stream: their inputs stay what they were
+	for i := 0; i < ntb; i++ {
+		streams = append(streams, timeBoundedStream(trng.Fork(), i, cfg.Thorough()))
+	}
 	streams = append(streams, known...)
+	// C03_ONLY=<family> (e.g. tb, bt, ac): run only the streams of that family (development aid, e.g. a thorough-tier
+	// run of one stream family in a minute); the check itself never sets it
+	if only := os.Getenv("C03_ONLY"); only != "" {
+		var keep []Stream
+		for _, st := range streams {
+			if strings.TrimRight(st.Name, "0123456789") == only {
+				keep = append(keep, st)
+			}
+		}
+		streams = keep
+	}
 	// streams run one after the other, the layouts of a stream in parallel worker processes
 	famT := map[string]float64{}
 	for _, st := range streams {
@@ -1882,6 +1951,14 @@ func runMeta(cfg vhlib.Config, sum *vhlib.Summary, rng *vhlib.Rng) {
 		}
 		sum.WriteCaseFile(cfg.Out, fmt.Sprintf("cases_allcol_e2e_%02d", k), casesImports,
 			"Definition cases := "+vhlib.CoqListNL(ctx.acol[i:j])+".\n", "check_allcol_e2e cases", npairs)
+	}
+	for i, k := 0, 0; i < len(ctx.tfetch); i, k = i+250, k+1 {
+		j := i + 250
+		if j > len(ctx.tfetch) {
+			j = len(ctx.tfetch)
+		}
+		sum.WriteCaseFile(cfg.Out, fmt.Sprintf("cases_tfetch_%02d", k), "From SigM Require Import Base SortCmd Sched Fetch TimePrune.\n",
+			"Definition cases : list tfetch_case := "+vhlib.CoqListNL(ctx.tfetch[i:j])+".\n", "check_tfetch cases", j-i)
 	}
 	for i, k := 0, 0; i < len(ctx.fetch); i, k = i+250, k+1 {
 		j := i + 250
